@@ -21,6 +21,8 @@ import (
 	"verif/circgen"
 	"verif/drbg"
 	"verif/mpcl"
+	"verif/mpclgen"
+	"verif/refsem"
 	"verif/runner"
 	"verif/sess"
 )
@@ -390,6 +392,40 @@ func work(ctx *runner.Ctx) {
 				}
 			}
 		}
+	}
+	// a stride through the statement-level and cast families of the C03 program generator (streaming, two-argument mains)
+	{
+		n := 0
+		stride := 1
+		if quick {
+			stride = 5
+		}
+		genEmit := func(g mpclgen.Gen) {
+			ps := g.P.Main().Params
+			if len(ps) != 2 || ps[0].T.N > 0 || len(ps[0].T.Fields) > 0 || ps[1].T.N > 0 || len(ps[1].T.Fields) > 0 || ps[0].T.Bool || ps[1].T.Bool {
+				return
+			}
+			n++
+			if n%stride != 0 {
+				return
+			}
+			in := func(t refsem.Type, odd bool) string {
+				w := t.W
+				if t.Signed {
+					w--
+				}
+				v := new(big.Int)
+				for i := 0; i < w; i++ {
+					if (i%2 == 1) == odd || i == 0 {
+						v.SetBit(v, i, 1)
+					}
+				}
+				return v.String()
+			}
+			cases = append(cases, cs{Mode: "stream", Src: g.P.Src(), G: in(ps[0].T, false), E: in(ps[1].T, true), OT: "co", Seed: uint64(ctx.Seed) + uint64(n%5)})
+		}
+		mpclgen.Statements(quick, genEmit)
+		mpclgen.Casts(quick, genEmit)
 	}
 	// a garbler input wider than 65536 wires (label batches, 16-bit wire ids): bits 65536 apart differ
 	{
